@@ -435,7 +435,18 @@ func (r *R) Gen(ctx sdk.Context, g *hx.Rng) string {
 	case 6:
 		return r.malformed(ctx, g, classes, toks)
 	default: // scripted scenarios
-		switch g.Intn(3) {
+		switch g.Intn(4) {
+		case 3: // one owner collects more than a query page (100) of tokens of one class, then one is moved and one burnt
+			c := pickClass()
+			to := r.acc(g)
+			n := 101 + g.Intn(4)
+			for i := 1; i < n; i++ {
+				r.queue = append(r.queue, mintLine(c.creator, to, c.id, fmt.Sprintf("b%03d", i), "", "", "", ""))
+			}
+			r.queue = append(r.queue,
+				transferLine(to, r.acc(g), c.id, "b001", sentinel, sentinel, sentinel, sentinel),
+				burnLine(to, c.id, "b002"))
+			return mintLine(c.creator, to, c.id, "b000", "", "", "", "")
 		case 0: // handover then mint by the old and by the new creator
 			c := pickClass()
 			nw := r.acc(g)
